@@ -49,7 +49,7 @@ pub fn codec(ctx: &mut Ctx) {
     ctx.rule = "per codec (AHED, FHED, SHED, fPRM, xATR, entry names, link references, UTF-8 validation): generated valid values through \
                 encode then decode, plus hostile/truncated payloads through decode; non-trivial = payload non-empty; distinct by request line".into();
     let n = if ctx.thorough { 5000 } else { 500 };
-    for _ in 0..n {
+    for it in 0..n {
         // AHED
         let p = if rng.gen_bool(0.6) { bytes(&mut rng, 8) } else { let k = size(&mut rng, 12); bytes(&mut rng, k) };
         let pp = p.clone();
@@ -99,7 +99,7 @@ pub fn codec(ctx: &mut Ctx) {
         ctx.case(json!({"codec":"shed"}), format!("shed.dec {}", hexw(&p)), a, !p.is_empty());
         ctx.case(json!({"codec":"shed"}), format!("shed.reenc {}", hexw(&p)), re, !p.is_empty());
         // fPRM
-        let long = rng.gen_bool(0.04);
+        let long = rng.gen_bool(0.04) || it == 0; // it == 0: corpus witness of C15-fprm-name-over-255
         let name = |rng: &mut rand_chacha::ChaCha8Rng, long: bool| -> String {
             if long { "n".repeat(rng.gen_range(256..300)) } else { ["", "root", "ünï", "user name", &"x".repeat(255)][rng.gen_range(0..5)].to_string() }
         };
